@@ -371,6 +371,8 @@ def havoc_loc(I, loc):
         m, k = loc[1], loc[2]
         cur = I.heap[m.oid]["get"](k)
         I.mset(m, k, fresh_like(I, cur, "hv_e"))
+    elif loc[0] == "global":
+        pass
     elif loc[0] == "col":
         m, field = loc[1], loc[2]
         p = I.heap[m.oid]
@@ -532,6 +534,8 @@ def modset(locs):
             s.add((loc[1].oid, loc[2]))
         elif loc[0] == "entry":
             s.add((loc[1].oid, "[]"))
+        elif loc[0] == "global":
+            s.add((-1, loc[1]))
     return s
 
 
@@ -540,7 +544,7 @@ def check_frame(I, pfx, allowed):
     log = I.write_logs[0]
     bad = []
     for oid, what in log:
-        if oid >= I.first_new_oid:
+        if oid >= I.first_new_oid and oid >= 0:
             continue
         if (oid, "*") in allowed or (oid, what) in allowed:
             continue
